@@ -9,6 +9,7 @@ import JominiModel.Proofs.BinEndToEndLex
 import JominiModel.Proofs.BinEndToEndAll
 import JominiModel.Proofs.BinDeMixed
 import JominiModel.Proofs.BinDeMisfit
+import JominiModel.Proofs.BinDeMisfitTight
 /-
 C04 — binary deserialization agrees across tape, on-demand and streaming paths.
 Helper lemmas: Proofs/BinDe.lean (dispatch), Proofs/BinDeSeq.lean (sequential readers).
@@ -193,5 +194,27 @@ theorem C04_misfit_arrayAsMap : type_of% @BinDe.C04_misfit_arrayAsMap := @BinDe.
 theorem C04_misfit_objectAsAny : type_of% @BinDe.C04_misfit_objectAsAny := @BinDe.C04_misfit_objectAsAny
 theorem C04_misfit_objectAsSeq : type_of% @BinDe.C04_misfit_objectAsSeq := @BinDe.C04_misfit_objectAsSeq
 theorem C04_misfit_rgbInArray : type_of% @BinDe.C04_misfit_rgbInArray := @BinDe.C04_misfit_rgbInArray
+
+/-- SOUNDNESS of the classification (the converse of `C04_fits_or_misfit`): a root request whose traversal meets one of the
+five combinations does not fit - no constructor of the `Meets…` relations over-approximates. -/
+theorem C04_meets_not_fits : type_of% @BinDe.meets_not_fits := @BinDe.meets_not_fits
+
+/-- EXACTNESS of the classification: a root request fits iff the traversal meets none of the five combinations. -/
+theorem C04_fits_iff_no_misfit : type_of% @BinDe.fitsRoot_iff_no_misfit := @BinDe.fitsRoot_iff_no_misfit
+
+/-- the exactness instantiated, both ways.  `a = { b = 1 }  l = { { x = yes } {} 7 }` read as
+`struct { a: Map<String, i64>, l: Vec<IgnoredAny> }` fits (computed), so NO derivation of any of the five combinations exists
+on it; the same document read as `struct { a: any, … }` meets `objectAsAny` (derivation given), so it does not fit. -/
+example :
+    let d : BDoc := .cons 0 (.unquoted [97]) (.obj (.cons 0 (.unquoted [98]) (.leaf (.i32 1)) .nil))
+      (.cons 0 (.unquoted [108])
+        (.arr (.cons (.obj (.cons 0 (.unquoted [120]) (.leaf (.bool true)) .nil)) (.cons (.arr .nil) (.cons (.leaf (.i32 7)) .nil)))) .nil)
+    let c : Cfg := ⟨.error, []⟩
+    (¬ ∃ m, MeetsRoot c m (.plain (.struct (.cons "a" 0 (.map .i64) (.cons "l" 0 (.seq .ign) .nil)))) d) ∧
+      fitsRoot c (.plain (.struct (.cons "a" 0 .any (.cons "l" 0 (.seq .ign) .nil)))) d = false := by
+  intro d c
+  refine ⟨(C04_fits_iff_no_misfit c _ d).mp (by decide +kernel), ?_⟩
+  exact C04_meets_not_fits c .objectAsAny _ d
+    (MeetsStructF.here (i := 0) (res_some_of_check (by decide +kernel)) rfl (MeetsN.objAny rfl rfl))
 
 end Jomini.Props.C04
